@@ -55,6 +55,7 @@ ASSUMPTIONS = [
 ]
 
 FUEL = 60
+S3 = 'My Sheet'          # a sheet title that has to be quoted in formulas
 FLOAT_TEXT = '.'.join(str(ord(c)) for c in '<float>')
 S1, S2 = 'Sheet1', 'Sheet2'
 
@@ -131,6 +132,17 @@ def fixed_models():
                                           A(1, 2): F(app(8, ref(A(0, 2)), ('lit', '|'))),
                                           A(2, 1): F(('if', app(6, ref(A(0, 2)), ref(A(0, 1))), ('lit', 1),
                                                       ref(A(0, 2))))}, 'names': {}}, (False, 0)))
+    # the same unqualified formula text on several sheets over different data (a quoted sheet title among them)
+    base = {'cells': {A(0, 1): 10, A(1, 1): F(app(2, ref(A(0, 1)), ('lit', 2)))}, 'names': {}}
+    out.append(('mirror-ref', mirror(base, S2, lambda c: c * 10), (3, 7)))
+    base = {'cells': {A(0, 1): 1, A(1, 1): F(app(0, app(4, ('rng', 'Sheet1!A1:A1')), ('lit', 1)))}, 'names': {}}
+    out.append(('mirror-range-quoted', mirror(base, S3, lambda c: c + 9), (5, 2)))
+    base = {'cells': {A(0, 1): 1, A(0, 2): 0, A(1, 1): F(('and', [('rng', 'Sheet1!A1:A2'), ('lit', True)]))}, 'names': {}}
+    out.append(('mirror-and-range', mirror(base, S2, lambda c: 1), (0, 1)))
+    base = {'cells': {A(0, 1): 2, A(1, 1): F(app(0, ref(A(0, 1)), ('lit', 1)))}, 'names': {'rate': A(0, 1)}}
+    m3 = mirror(mirror(base, S2, lambda c: c + 20), S3, lambda c: c + 40)
+    m3['cells'][A(2, 1, S2)] = F(app(0, ref(A(1, 1, S3)), ref(A(1, 1, S2))))
+    out.append(('mirror-3-sheets', m3, (6, 0)))
     return out
 
 
@@ -157,6 +169,47 @@ def float_text_hidden(wb, ops):
     if any(isinstance(c, float) for c in wb['cells'].values()):
         return True
     return any(op[0] == 's' and isinstance(op[-1], float) for op in ops)
+
+
+def remap_addr(a, src, dst):
+    sh, c = a.split('!')
+    return f'{dst}!{c}' if sh == src else a
+
+
+def remap_fx(fx, src, dst):
+    k = fx[0]
+    if k in ('ref', 'rng'):
+        return (k, remap_addr(fx[1], src, dst))
+    if k == 'app':
+        return ('app', fx[1], [remap_fx(x, src, dst) for x in fx[2]])
+    if k == 'if':
+        return ('if',) + tuple(remap_fx(x, src, dst) for x in fx[1:])
+    if k in ('and', 'or', 'fail'):
+        return (k, [remap_fx(x, src, dst) for x in fx[1]])
+    return fx
+
+
+def mirror(wb, dst, new_value, src=S1):
+    """add a copy of the cells of sheet `src` on sheet `dst`: the SAME unqualified formula texts over
+    DIFFERENT constants (state kept on a shared AST node, or keyed by formula text, mixes the sheets up)"""
+    out = {'cells': dict(wb['cells']), 'names': dict(wb.get('names', {}))}
+    for a, c in wb['cells'].items():
+        if a.split('!')[0] != src:
+            continue
+        b = remap_addr(a, src, dst)
+        if isinstance(c, tuple) and c and c[0] == 'f':
+            out['cells'][b] = F(remap_fx(c[1], src, dst))
+        else:
+            out['cells'][b] = new_value(c)
+    extra = list(wb.get('extra_inputs', []))
+    extra += [remap_addr(a, src, dst) for a in wb.get('extra_inputs', []) if a.split('!')[0] == src]
+    if extra:
+        out['extra_inputs'] = extra
+    for k in ('twins',):
+        if wb.get(k):
+            out[k] = True
+    out['mirrored'] = True
+    return out
 
 
 def inputs_of(wb):
@@ -243,12 +296,27 @@ def gen_fx(rng, earlier, safe_cols, depth, twins=False):
     return app(0, gen_fx(rng, earlier, safe_cols, depth - 1, twins), ('lit', 1))
 
 
-def gen_model(rng, ncells, twins=None):
+def gen_model(rng, ncells, twins=None, mirrored=None):
+    if mirrored is None:
+        mirrored = ncells >= 6 and rng.random() < 0.3
+    if mirrored:
+        base = gen_model_1(rng, max(3, ncells // 2), twins, single_sheet=True)
+        dst = rng.choice([S2, S3])
+        pool = TWIN_VALUES if base.get('twins') else INPUT_VALUES
+        wb = mirror(base, dst, lambda c: rng.choice([v for v in pool if vkey(v) != vkey(c)]))
+        fs = formulas_of(base)
+        if fs and rng.random() < 0.5:       # a cell that reads the corresponding results of both sheets
+            wb['cells'][f'{dst}!H9'] = F(app(0, ref(fs[-1]), ref(remap_addr(fs[-1], S1, dst))))
+        return wb
+    return gen_model_1(rng, ncells, twins)
+
+
+def gen_model_1(rng, ncells, twins=None, single_sheet=False):
     """random acyclic workbook with `ncells` cells: a column-major grid on Sheet1 (a cell only refers to
     earlier cells and to ranges in strictly earlier columns), a few cells on Sheet2, 0-2 defined names"""
     rows = 3
     grid = [(c, r) for c in range(4) for r in range(1, rows + 1)]
-    n2 = rng.choice([0, 0, 1, 2]) if ncells >= 4 else 0
+    n2 = rng.choice([0, 0, 1, 2]) if ncells >= 4 and not single_sheet else 0
     n1 = ncells - n2
     chosen = sorted(rng.sample(grid, n1))
     order = [('g', c, r) for c, r in chosen]
@@ -521,8 +589,9 @@ def wb_from_json(j):
     out = {'cells': cells, 'names': dict(j.get('names', {}))}
     if j.get('extra_inputs'):
         out['extra_inputs'] = list(j['extra_inputs'])
-    if j.get('twins'):
-        out['twins'] = True
+    for k in ('twins', 'mirrored'):
+        if j.get(k):
+            out[k] = True
     return out
 
 
